@@ -153,16 +153,21 @@ class Proxy(Part):
             "independent encoder or plain), the last line possibly unterminated; cut into write() calls at generated offsets (inside lines, inside escape "
             "sequences, empty writes, many newlines) interleaved with flush() at generated character boundaries; through FileProxy directly and through "
             "sys.stdout under a Live; the console output must decode to the same (char, attrs, fg, bg, link) sequence as the raw stream with one newline "
-            "added per non-empty flush; non-trivial = a cut inside an escape sequence or a flush with a non-empty partial line")
+            "added per non-empty flush; optionally one line of 201..20001 characters (folded by the console into full-width pieces; lengths around 1024/4096/8192/16384), also "
+            "cut and flushed in the middle; non-trivial = a cut inside an escape sequence or a flush with a non-empty partial line")
     budget = {"quick": (8, 1200), "thorough": (16, 10000)}
 
     def strategy(self, tier):
         run = st.builds(lambda t, s, v: {"t": t, "s": s, "v": v}, run_text(), st.one_of(st.none(), st.none(), GS.style_spec(max_attrs=3), st.sampled_from(GS.PALETTE)), st.integers(0, 5))
         line = st.lists(run, min_size=0, max_size=4)
+        # a very long line (no spaces, one run): longer than the console is wide, around the sizes at which buffers usually change behaviour
+        long_len = st.one_of(st.integers(201, 420), st.sampled_from([1023, 1024, 1025, 4095, 4096, 4097, 8191, 8192, 8193, 8200, 16384, 16385, 20001]), st.integers(421, 9000))
+        long = st.one_of(st.none(), st.none(), st.none(), st.builds(lambda i, n, sp, cut, fl: {"line": i, "len": n, "style": sp, "cut": cut, "flush": fl}, st.integers(0, 5), long_len, st.one_of(st.none(), st.sampled_from(GS.PALETTE)),
+                                                                    st.one_of(st.none(), st.floats(0, 1), st.floats(0.9, 1)), st.booleans()))
         return st.builds(
-            lambda lines, last_nl, cuts, flushes, route: {"lines": lines, "final_newline": last_nl, "cuts": cuts, "flushes": flushes, "route": route},
+            lambda lines, last_nl, cuts, flushes, route, lg: {"lines": lines, "final_newline": last_nl, "cuts": cuts, "flushes": flushes, "route": route, "long": lg},
             st.lists(line, min_size=1, max_size=6), st.booleans(),
-            st.lists(st.integers(0, 400), max_size=10), st.lists(st.integers(0, 400), max_size=4), st.sampled_from(["proxy", "proxy", "live", "live-stderr"]),
+            st.lists(st.integers(0, 400), max_size=10), st.lists(st.integers(0, 400), max_size=4), st.sampled_from(["proxy", "proxy", "live", "live-stderr"]), long,
         )
 
     def check(self, spec, ctx):
@@ -175,10 +180,18 @@ class Proxy(Part):
         # build the raw stream and remember which offsets are inside an escape sequence
         raw = ""
         safe = [0]  # offsets where a flush may fall (between characters, outside escape sequences)
+        CW = 200
+        lg = spec.get("long")
+        long_cut = None
         for li, line in enumerate(spec["lines"]):
             width = 0
+            if lg and li == lg["line"] % len(spec["lines"]):
+                line = [{"t": ("abcdefghij" * (lg["len"] // 10 + 1))[:lg["len"]], "s": lg["style"], "v": 0, "long": True}]
             for r in line:
-                if width + OC.width(r["t"]) > 150:
+                if r.get("long"):
+                    if lg["cut"] is not None:
+                        long_cut = len(raw) + int(lg["cut"] * lg["len"])   # a write boundary and a flush inside the long line
+                elif width + OC.width(r["t"]) > 150:
                     continue
                 width += OC.width(r["t"])
                 pre, txt, post = encode_run(r["t"], r["s"], r["v"])
@@ -193,9 +206,14 @@ class Proxy(Part):
         safe = sorted(set(s for s in safe if s <= len(raw)))
         cuts = sorted(set(min(c, len(raw)) for c in spec["cuts"]))
         flush_at = sorted(set(safe[f % len(safe)] for f in spec["flushes"]))
+        if long_cut is not None:
+            long_cut = min([x for x in safe if x >= long_cut] or [len(raw)])
+            cuts = sorted(set(cuts) | {long_cut})
+            if lg.get("flush", True):
+                flush_at = sorted(set(flush_at) | {long_cut})
         points = sorted(set(cuts) | set(flush_at) | {len(raw)})
         f = io.StringIO()
-        con = sut(Console, file=f, color_system="truecolor", force_terminal=True, legacy_windows=False, width=200, _environ={})
+        con = sut(Console, file=f, color_system="truecolor", force_terminal=True, legacy_windows=False, width=CW, _environ={})
         sink = io.StringIO()
         expected_raw = ""  # raw stream with the newline each non-empty flush adds
         pending = ""
@@ -254,6 +272,14 @@ class Proxy(Part):
         got = [e for e in got if e[0] == "ch"]
         gs = "".join(e[1] for e in got)
         ws = "".join(e[1] for e in want)
+        if lg:
+            # a line without spaces that is wider than the console is folded into full-width pieces; the other lines are narrower than the console
+            ws = "\n".join("\n".join(l[k:k + CW] for k in range(0, len(l), CW)) if len(l) > CW and l.isascii() and " " not in l else l for l in ws.split("\n"))
+            got = [e for e in got if e[1] != "\n"]
+            want = [e for e in want if e[1] != "\n"]
+            ctx.cls("long-line")
+            if lg["len"] > 8192:
+                ctx.cls("line-longer-than-8192")
         if gs != ws:
             if spec["route"] == "proxy" or True:
                 sig = "C19/proxy/flush-text" if nonempty_flush and gs.replace("\n", "") != ws.replace("\n", "") else ("C19/proxy/lines" if gs.replace("\n", "") == ws.replace("\n", "") else "C19/proxy/text")
